@@ -33,6 +33,9 @@ pub struct Ctx {
     /// order-independent digest of (key, reply) pairs for cross-configuration comparison
     pub digest_sum: AtomicU64,
     pub digest_n: AtomicU64,
+    /// the same for operations that only exist with the precomputed-tables feature (keys "T:...")
+    pub tdigest_sum: AtomicU64,
+    pub tdigest_n: AtomicU64,
     pub transcript: Option<Mutex<std::io::BufWriter<std::fs::File>>>,
     pub notes: Mutex<Vec<String>>,
     pub bounds: Mutex<BTreeMap<String, Value>>,
@@ -55,6 +58,8 @@ impl Ctx {
             nontrivial: AtomicU64::new(0),
             digest_sum: AtomicU64::new(0),
             digest_n: AtomicU64::new(0),
+            tdigest_sum: AtomicU64::new(0),
+            tdigest_n: AtomicU64::new(0),
             transcript: transcript.map(|p| {
                 Mutex::new(std::io::BufWriter::new(
                     std::fs::File::create(p).expect("transcript file"),
@@ -135,8 +140,13 @@ impl Ctx {
         let d = h.finalize();
         let mut w = [0u8; 8];
         w.copy_from_slice(&d[..8]);
-        self.digest_sum.fetch_add(u64::from_le_bytes(w), Ordering::Relaxed);
-        self.digest_n.fetch_add(1, Ordering::Relaxed);
+        if key.starts_with("T:") {
+            self.tdigest_sum.fetch_add(u64::from_le_bytes(w), Ordering::Relaxed);
+            self.tdigest_n.fetch_add(1, Ordering::Relaxed);
+        } else {
+            self.digest_sum.fetch_add(u64::from_le_bytes(w), Ordering::Relaxed);
+            self.digest_n.fetch_add(1, Ordering::Relaxed);
+        }
         if let Some(t) = &self.transcript {
             let mut t = t.lock().unwrap();
             let _ = writeln!(t, "{}\t{}", key, crate::model::nat::hex(reply));
@@ -162,6 +172,8 @@ impl Ctx {
             "n_violations": self.n_violations.load(Ordering::Relaxed),
             "digest": format!("{:016x}", self.digest_sum.load(Ordering::Relaxed)),
             "digest_n": self.digest_n.load(Ordering::Relaxed),
+            "tdigest": format!("{:016x}", self.tdigest_sum.load(Ordering::Relaxed)),
+            "tdigest_n": self.tdigest_n.load(Ordering::Relaxed),
             "notes": *self.notes.lock().unwrap(),
             "exhaustive": *self.exhaustive.lock().unwrap(),
             "wall_s": wall_s,
